@@ -3,7 +3,7 @@ use crate::c01::{payload_bytes, shape};
 use crate::core::dltgen::*;
 use crate::core::*;
 use adlt::dlt::{parse_dlt_with_storage_header, DltMessage};
-use adlt::utils::DltMessageIterator;
+use adlt::utils::{DltMessageIterator, LowMarkBufReader};
 use serde_json::{json, Value};
 
 pub struct C02;
@@ -182,16 +182,75 @@ fn judge_stream(ctx: &mut Ctx, specs: &[&MsgSpec], case: &dyn Fn() -> Value) {
     }
 }
 
+/// file-level export as `adlt convert -o` does it: the file is read through LowMarkBufReader(512 KiB, low mark) and
+/// every message is written with to_write. A large message starts where `in_buf` bytes are left in the first
+/// window. Reference: the same bytes parsed from one slice.
+fn judge_file_window(ctx: &mut Ctx, low_mark: usize, in_buf: usize, big_std_len: usize, case: &dyn Fn() -> Value) {
+    const CAP: usize = 512 * 1024;
+    let o = CAP - in_buf; // offset of the large message
+    let mut src: Vec<u8> = Vec::with_capacity(CAP + 70_000);
+    let mut n = 0usize;
+    let filler = |total: usize, n: usize| -> Vec<u8> {
+        let mut m = shape(&Framing::Storage, 0, 0, 0, n as u8, n);
+        m.payload = payload_bytes(total - 20, n as u8);
+        m.to_bytes()
+    };
+    while src.len() + 2000 <= o {
+        src.extend_from_slice(&filler(1000, n));
+        n += 1;
+    }
+    let rest = o - src.len(); // 1000..2000
+    src.extend_from_slice(&filler(rest, n));
+    n += 1;
+    assert_eq!(src.len(), o);
+    let mut big = shape(&Framing::Storage, WTMS | UEH, 0, 0, 7, n);
+    big.payload = payload_bytes(big_std_len - big.hdr_size(), 0x5a);
+    src.extend_from_slice(&big.to_bytes());
+    n += 1;
+    for _ in 0..3 {
+        src.extend_from_slice(&filler(100, n));
+        n += 1;
+    }
+    let r = catch(|| -> Result<(), (String, String)> {
+        let reference: Vec<DltMessage> = DltMessageIterator::new(0, &src[..]).collect();
+        if reference.len() != n {
+            return Err(("source_parse".into(), format!("{} of {n} source messages parsed from the slice", reference.len())));
+        }
+        let got: Vec<DltMessage> = DltMessageIterator::new(0, LowMarkBufReader::new(std::io::Cursor::new(&src[..]), CAP, low_mark)).collect();
+        if got.len() != n {
+            return Err(("file_export_count".into(), format!("file of {n} messages exports {} (large message of {} bytes at offset {o}, {in_buf} bytes buffered, low mark {low_mark})", got.len(), 16 + big_std_len)));
+        }
+        let (mut e_ref, mut e_got) = (vec![], vec![]);
+        for (a, b) in reference.iter().zip(got.iter()) {
+            a.to_write(&mut e_ref).map_err(|e| ("write_error".to_string(), e.to_string()))?;
+            b.to_write(&mut e_got).map_err(|e| ("write_error".to_string(), e.to_string()))?;
+        }
+        if e_ref != e_got {
+            return Err(("file_export_bytes".into(), "export through the file reader differs from the export of the slice parse".into()));
+        }
+        if e_got != src {
+            return Err(("file_export_bytes".into(), "export of a normal-form file is not byte-identical".into()));
+        }
+        Ok(())
+    });
+    ctx.landmark("file_window");
+    match r {
+        Err(p) => ctx.violation("panic", &p.loc, case, p.msg),
+        Ok(Err((clause, d))) => ctx.violation(&clause, "", case, d),
+        Ok(Ok(())) => {}
+    }
+}
+
 impl Prop for C02 {
     fn meta(&self, _t: Tier) -> Meta {
         Meta {
             id: "C02",
             level: "exploration",
-            rule: "exhaustive product over parsed messages: 32 header-flag sets x both framings x payload sizes {0..12,255,256,4096,max} and every size 0..max for 2 (thorough: all 32) flag sets x 3 id sets x reception corners (secs {0,1.6e9,u32::MAX} x micros {0,999999}) x timestamp {0,1,u32::MAX} x mcnt {0,255}; each message is parsed from independently built bytes, written with to_write, re-read with parse_dlt_with_storage_header (must consume exactly the written bytes and agree on ecu, reception time, timestamp and its presence, mcnt, byte-order flag, extended header, payload) and written again (byte-identical). Stream family: all sequences of <= 5 (thorough 6) messages from a 10-variant pool incl. payloads with embedded frame markers, exported back-to-back, re-read with DltMessageIterator (same messages in order, nothing skipped), exported again (byte-identical). Non-trivial = export drops a header field (ECU/session id move) or payload > 255 bytes.".into(),
+            rule: "exhaustive product over parsed messages: 32 header-flag sets x both framings x payload sizes {0..12,255,256,4096,max} and every size 0..max for 2 (thorough: all 32) flag sets x 3 id sets x reception corners (secs {0,1.6e9,u32::MAX} x micros {0,999999}) x timestamp {0,1,u32::MAX} x mcnt {0,255}; each message is parsed from independently built bytes, written with to_write, re-read with parse_dlt_with_storage_header (must consume exactly the written bytes and agree on ecu, reception time, timestamp and its presence, mcnt, byte-order flag, extended header, payload) and written again (byte-identical). Stream family: all sequences of <= 5 (thorough 6) messages from a 10-variant pool incl. payloads with embedded frame markers, exported back-to-back, re-read with DltMessageIterator (same messages in order, nothing skipped), exported again (byte-identical). File family: a 600 KB normal-form file is read the way `adlt convert` reads it (LowMarkBufReader, 512 KiB, low mark = the repository's DLT_MIN_PARSER_LOOKAHEAD_SIZE and DLT_MAX_STORAGE_MSG_SIZE) with a near-maximum message starting at every buffered-byte count around the low mark; every message must be exported, byte-identical. Non-trivial = export drops a header field (ECU/session id move) or payload > 255 bytes.".into(),
             assumptions: vec!["storage micros < 10^6 (premise of the property)".into(), "CLI level (adlt convert -o twice) is covered by C14's -o clause".into()],
             budget_s: (40, 900),
             workers: 0,
-            required_landmarks: vec!["export_drops_header_field(WEID/WSID)", "serial_source", "max_size", "stream_with_embedded_marker"],
+            required_landmarks: vec!["export_drops_header_field(WEID/WSID)", "serial_source", "max_size", "stream_with_embedded_marker", "file_window"],
         }
     }
     fn run(&self, ctx: &mut Ctx) {
@@ -265,6 +324,36 @@ impl Prop for C02 {
                 return;
             }
         }
+        // file-level export: a large message at every buffered-byte count around the reader's low mark
+        {
+            use adlt::dlt::{DLT_MAX_STORAGE_MSG_SIZE, DLT_MIN_PARSER_LOOKAHEAD_SIZE};
+            let (lo, hi) = if thorough { (60_000usize, 70_000usize) } else { (65_380, 65_720) };
+            let lows = [DLT_MIN_PARSER_LOOKAHEAD_SIZE, DLT_MAX_STORAGE_MSG_SIZE];
+            let bigs = [65535usize, 65534, 65520];
+            ctx.begin_family("file_windows", &format!("600 KB normal-form file read as `convert` reads it (LowMarkBufReader 512 KiB, low mark in {:?}); a message of std length {:?} starts where in_buf = {lo}..={hi} bytes are buffered", lows, bigs));
+            let mut done = true;
+            'w: for in_buf in lo..=hi {
+                for &low in &lows {
+                    for &big in &bigs {
+                        if ctx.mine() {
+                            let cj = || json!({"family": "file_windows", "low_mark": low, "in_buf": in_buf, "big_std_len": big});
+                            judge_file_window(ctx, low, in_buf, big, &cj);
+                            ctx.transitions(1);
+                            ctx.eval(true);
+                            ctx.sample(cj);
+                        }
+                    }
+                }
+                if in_buf % 16 == 0 && ctx.out_of_time() {
+                    done = false;
+                    break 'w;
+                }
+            }
+            ctx.end_family(done);
+            if !done {
+                return;
+            }
+        }
         let all_flags: Vec<u8> = if thorough { (0u8..32).collect() } else { vec![0u8, 31] };
         ctx.begin_family("all_sizes", &format!("every payload size 0..max for {} flag sets (storage framing)", all_flags.len()));
         let mut done = true;
@@ -287,7 +376,11 @@ impl Prop for C02 {
     }
     fn replay(&self, case: &Value, ctx: &mut Ctx) {
         ctx.mine();
-        if case["family"] == "streams" {
+        if case["family"] == "file_windows" {
+            let cj = || case.clone();
+            judge_file_window(ctx, case["low_mark"].as_u64().unwrap() as usize, case["in_buf"].as_u64().unwrap() as usize, case["big_std_len"].as_u64().unwrap() as usize, &cj);
+            ctx.eval(true);
+        } else if case["family"] == "streams" {
             let pool = pool();
             let ix: Vec<usize> = case["pool_indices"].as_array().unwrap().iter().map(|x| x.as_u64().unwrap() as usize).collect();
             let specs: Vec<&MsgSpec> = ix.iter().map(|i| &pool[*i]).collect();
